@@ -351,9 +351,10 @@ func spanKey(red, mode, clause string) (key string, detail string) {
 	case "line":
 		key = fmt.Sprintf("line: drift after %s [%s]", gapClass(gap, gapStart == 0), m)
 	case "literal":
-		key = fmt.Sprintf("literal: %s text differs from its span, %s [%s]", f.Class, gapClass(victim, false), m)
+		key = fmt.Sprintf("literal: %s text differs from its span [%s]", f.Class, m)
 	case "child":
 		key = fmt.Sprintf("child: interpolation child outside parent, %s [%s]", gapClass(victim, false), m)
+		_ = victim
 	default:
 		key = fmt.Sprintf("%s: %s after %s [%s]", clause, f.Class, gapClass(gap, gapStart == 0), m)
 	}
